@@ -10,6 +10,7 @@
    hand-poked code (allow_code_poke) and crafted tokenised files are excluded. *)
 From Coq Require Import ZArith List Bool Lia Sorting.Sorted.
 From PCB Require Import lib.Result lib.PyInt gen.Gen_program model.Program model.ProgramSpec proofs.Program_proofs.
+From PCB Require Import model.Renum model.RenumSpec model.Edit proofs.Renum_proofs proofs.Edit_proofs.
 Import ListNotations.
 Open Scope Z_scope.
 
@@ -90,6 +91,34 @@ Print Assumptions C13_sentinel.
 Theorem C13_scanner_sound : forall b X, wf_body b = true -> skip_line (b ++ 0 :: X) = zlen b.
 Proof. exact skip_line_body. Qed.
 Print Assumptions C13_scanner_sound.
+
+(* ---- extension: histories that also contain RENUM (accepted or rejected - a rejected one only moves
+   last_stored), SAVE + LOAD of the tokenised image and MERGE (model/Edit.v).  [inv c s] = there are lines ls
+   and a tail with abs_ok c s ls tail, all numbers < 65535, no 0E byte right behind the terminator.
+   [xhist_ok] = every stored line has the tokeniser's shape with number <= 65534, RENUM arguments are two-byte
+   jump numbers, and a LOAD finds one byte of free program memory (Program.load has no memory check). *)
+Theorem C13_ext_invariant : forall c ops, cfg_ok c -> xhist_ok c erase ops -> inv c (xrun c ops).
+Proof. exact xrun_inv. Qed.
+Print Assumptions C13_ext_invariant.
+
+(* after ANY command of such a history, failed or not, the index equals a rescan of the code *)
+Theorem C13_ext_index_equals_rescan : forall c ops, cfg_ok c -> xhist_ok c erase ops ->
+  exists s', rebuild_line_dict c (xrun c ops) = Ok s' /\ code s' = code (xrun c ops)
+             /\ forall k, lookup k (lines s') = lookup k (lines (xrun c ops)).
+Proof.
+  intros c ops Hc Ho. destruct (xrun_inv c ops Hc Ho) as [ls [tail [Ha _]]]. exact (wf_rescan c _ ls tail Hc Ha).
+Qed.
+Print Assumptions C13_ext_index_equals_rescan.
+
+Theorem C13_ext_step : forall c s o, cfg_ok c -> inv c s -> xop_ok c s o -> inv c (fst (xstep c s o)).
+Proof. exact xstep_inv. Qed.
+Print Assumptions C13_ext_step.
+
+(* SAVE then LOAD (tokenised) brings back exactly the same lines; the EOF byte 1A stays behind the terminator *)
+Theorem C13_save_load : forall c s ls tail, cfg_ok c -> abs_ok c s ls tail ->
+  cs c + zlen (code s) + 1 <= limit c -> abs_ok c (fst (xstep c s XSaveLoad)) ls (tail ++ [26]).
+Proof. exact load_ok. Qed.
+Print Assumptions C13_save_load.
 
 (* non-vacuity: a history with insertion in the middle, replacement, deletions and a body containing a REM
    byte inside a string literal followed by a 00 inside a number token (the D13a witness) *)
